@@ -178,6 +178,16 @@ Theorem C03_no_final_newline_text : forall st len e ind le newline lines t nlt,
 Proof. exact no_final_newline_text. Qed.
 Print Assumptions C03_no_final_newline_text.
 
+(* the bytes read must themselves end with the newline, before indentation is stripped and before decoding *)
+Theorem C03_no_final_newline_raw : forall st len enc ind le keep newline lines,
+  is_nil (content_bytes st len) = false -> enc_valid enc -> indent_valid ind ->
+  nl_res_of le (enc_name enc) (content_bytes st len) = Ok newline ->
+  split_lines (content_bytes st len) newline true = Ok lines ->
+  bends newline (content_bytes st len) = false ->
+  read_content st len enc ind le keep = CParse (st_linenum st).
+Proof. exact no_final_newline_raw. Qed.
+Print Assumptions C03_no_final_newline_raw.
+
 (* lifted to the iteration: DiffXParseError on the line after the header *)
 Theorem C03_no_final_newline : forall orc chunk st valid encs prev level name id opts line st1 k inh len,
   read_header chunk valid st = HdrOk level name id opts line st1 ->
@@ -227,6 +237,23 @@ Example C03_no_final_newline_text_ex :
     py_decode c03_nl (B "utf-8") = Ok [10]%N /\
     suffixb N.eqb [10]%N [97; 98]%N = false /\
     read_all [] 96 c03_no_final_nl_text = (rs, TParse 2 None).
+Proof. do 11 eexists. split; [apply (run_n_run 1); vm_compute; reflexivity|]. ex_conj. Qed.
+
+(* raw case: "#.preamble: indent=2, length=4" + "a\n  ": the stripped, decoded content "a\n" ends with the newline,
+   the bytes read do not *)
+Example C03_no_final_newline_raw_ex :
+  exists rs st2 v2 e2 p2 level name id opts st1 inh,
+    run [] 96 (init_state c03_no_final_nl_raw) [GenSections.sec_main] [None] 0 rs st2 v2 e2 p2 /\
+    read_header 96 v2 st2 = HdrOk level name id opts 1 st1 /\
+    kind_of id = Some KPreamble /\ top e2 = Some inh /\
+    encoding_of KPreamble opts inh = Some (VStr (B "utf-8")) /\
+    indent_of KPreamble opts = Some (VInt 2) /\
+    content_bytes st1 4 = B "a" ++ c03_nl ++ B "  " /\
+    nl_res_of (opt_get "line_endings" opts) (Some (B "utf-8")) (content_bytes st1 4) = Ok c03_nl /\
+    split_lines (content_bytes st1 4) c03_nl true = Ok [B "a" ++ c03_nl; B "  "] /\
+    strip_indent (indent_of KPreamble opts) (content_bytes st1 4) [B "a" ++ c03_nl; B "  "] = B "a" ++ c03_nl /\
+    bends c03_nl (content_bytes st1 4) = false /\
+    read_all [] 96 c03_no_final_nl_raw = (rs, TParse 2 None).
 Proof. do 11 eexists. split; [apply (run_n_run 1); vm_compute; reflexivity|]. ex_conj. Qed.
 
 (* ---- A.6 invalid JSON (json.loads raised ValueError, or RecursionError) ---- *)
@@ -332,6 +359,7 @@ Theorem C03_read_content_ok : forall st len enc ind le keep p st2,
     nl_res_of le (enc_name enc) (content_bytes st len) = Ok newline /\
     split_lines (content_bytes st len) newline true = Ok lines /\
     st2 = state_after st (stream_after st len) (List.length lines) /\
+    bends newline (content_bytes st len) = true /\
     match enc_name enc, keep with
     | Some e, false =>
         exists t nlt, py_decode (strip_indent ind (content_bytes st len) lines) e = Ok t /\
